@@ -100,6 +100,9 @@ impl ReplDriver {
         if let Some(js) = crate::checks::js_records(core) {
             ev["js"] = js;
         }
+        if crate::core::CFG.with(|c| c.borrow().dir.as_os_str().len() > 0) {
+            ev["img"] = core.image_digest();
+        }
         self.rec().count("calls", 1);
         self.rec().emit(ev);
         ret
